@@ -11,6 +11,7 @@ PROPS_OF = [(r"bin_op/math/|bin_op/shift|bin_op/bitwise|prefix_op|bin_op/assign"
             (r"at\.rs|slicing|stdlib\.rs|array_repeat|instruction/array|instruction/tuple", ["C09", "C04", "C07"]),
             (r"variable\.rs|variable/array", ["C19"]),
             (r"reduce|partition", ["C11", "C07"]),
+            (r"interpreter\.rs|local_variable|block\.rs|set_if_else|match_arm|function/", ["C06"]),
             (r"function/anonymous|function/declaration", ["C04"])]
 ids = sys.argv[1:] or sorted(os.listdir(os.path.join(V, "seeded_harmless")), key=lambda x: int(x[1:]))
 jobs = []
